@@ -99,6 +99,12 @@ def specViews (d : LocalDecl) (e : ExtType) (attrs : List Attr) : Json :=
         ("local", optValJ (view (.local d) a)), ("ext", optValJ (view (.ext e) a))])).toArray),
     ("same_key", registryKey e.base == registryKey d.base.fields)]
 
+def slotOfJson (j : Json) : Except String (Slot String) :=
+  match j with
+  | .str "absent" => pure .absent
+  | .str "dir" => pure .dir
+  | _ => do pure (.file (← j.getObjValAs? String "file"))
+
 def handle (op : String) (req : Json) : Except String Json :=
   match op with
   | "c13.export" => do
@@ -136,6 +142,15 @@ def handle (op : String) (req : Json) : Except String Json :=
     | .ok reg => pure (Json.mkObj [("registered", Json.arr (reg.map (fun en => Json.mkObj [("key", keyJ en.key), ("located", en.located)])).toArray)])
     | .invalid => pure (Json.mkObj [("invalid", true)])
     | .duplicate k => pure (Json.mkObj [("duplicate", keyJ k)])
+  | "c13.locate" => do
+    -- the candidates of an `@extern` literal in search order: "absent" | "dir" | {"file": <id>} -> the id that is loaded
+    let given ← req.getObjVal? "as_given" >>= slotOfJson
+    let own ← req.getObjVal? "next_to_idl" >>= slotOfJson
+    let incs ← req.getObjVal? "include_dirs" >>= (·.getArr?)
+    let incs ← incs.toList.mapM slotOfJson
+    match locate (searchOrder given own incs) with
+    | some a => pure (Json.mkObj [("located", Json.str a)])
+    | none => pure (Json.mkObj [("located", Json.null)])
   | _ => throw s!"unknown op {op}"
 
 end Pydjinni.Drv.C13
